@@ -155,7 +155,7 @@ pub fn checks() -> Vec<Check> {
             "an Err is accepted if anywhere in the cloud an invalid-state value outside its documented set is stored",
         ],
         ignore_resource_deaths: false,
-        budget_s: (120, 900),
+        budget_s: (120, 2400),
     },
     Check {
         id: "C06",
@@ -265,7 +265,7 @@ pub fn checks() -> Vec<Check> {
         rule: "full products; writer output compared bit by bit with e57spec::bits (value - min, LSB first, contiguous), total stream length exactly ceil(N*w/8); reader fed with independently encoded streams under every cut; evaluations count inner (value, flush/split) combinations; distinct = distinct file / stream",
         assumptions: &["only same-width streams are driven through the buffers, i.e. exactly the phases the library can produce", "values inside the declared range only (out-of-range belongs to C10)"],
         ignore_resource_deaths: false,
-        budget_s: (120, 900),
+        budget_s: (120, 2400),
     },
     Check {
         id: "C13",
@@ -314,7 +314,7 @@ pub fn checks() -> Vec<Check> {
         rule: "faults: the fault-free run numbers the device operations, then one run per index with exactly that operation failing; the call in progress must return Err, finalize Ok implies the fault-free bytes; chunking: deviation-bounded DFS over the short-transfer choice at every transfer, bytes / results must equal the full-transfer run; distinct = distinct (bytes | failing step); non-trivial = fault fired / at least one short transfer",
         assumptions: &["a short transfer never returns 0 bytes for a non-empty request (that would be EOF / WriteZero, i.e. a fault)", "faults that fire while the writer is dropped are exempt from the 'call returns Err' clause"],
         ignore_resource_deaths: false,
-        budget_s: (120, 900),
+        budget_s: (120, 2400),
     },
     Check {
         id: "C17",
